@@ -33,8 +33,14 @@ Vocabulary (`Micm/Lemmas/Relabel.lean`, `RelabelLoop.lean`):
 * `RelabelEq σ nCells n sameIP r₁ r₂`: the loop states agree up to `σ` (`Y` and, inside a step,
   the initial forcing are relabelled copies; control, status, counters, history equal;
   `jacobian_updates` equal when `sameIP`).
+* backward Euler (`Micm/Lemmas/RelabelBE.lean`): `BEStoreInv s nCells n r` (shapes of the scratch the
+  Newton update reads), `BERelabelEq σ nCells n r₁ r₂` (`Yn1`, `Yn` relabelled copies; `t`, `H`,
+  counters, status, all statistics, history of `H` equal), `BEPivotsOK` (no vanishing pivot in the
+  Newton iteration made from a state).  The residual, the clamp `max(·, 0)` and `IsConverged` are
+  element-wise, hence commute with `σ` (`C12_be_converged_relabel`).
 -/
 import Micm.Lemmas.RelabelLoop
+import Micm.Lemmas.RelabelBE
 import Micm.Properties.C12
 
 open Finset
@@ -188,6 +194,84 @@ theorem C12_solve_relabel (σ : Nat → Nat)
   have := h3.rd c v hc hv
   rwa [extendRelabel_lt σ hv] at this
 
+/-! ### backward Euler -/
+
+section BE
+variable (pb : BEParams K)
+
+/-- **C12 (reordering), `IsConverged`**: the element-wise convergence test gives the same answer on
+    relabelled residual / iterate with the relabelled tolerance vector -/
+theorem C12_be_converged_relabel (hσ : IsRelabel σ n) (nCells : Nat) (small : K)
+    (hat : ∀ v, v < n → rd atol' (σ v) = rd atol v)
+    {res res' yn1 yn1' : Mat K} (hr : PermMat σ nCells n res res') (hy : PermMat σ nCells n yn1 yn1') :
+    beIsConverged o small atol' rtol res' yn1' = beIsConverged o small atol rtol res yn1 :=
+  beIsConverged_relabel hσ o small atol atol' rtol hat hr hy
+
+/-- **C12 (reordering), one Newton iteration of backward Euler** (`beStep`) -/
+theorem C12_be_step_relabel (hset : RelabelSetup σ procs m t t' n)
+    (hat : ∀ v, v < n → rd atol' (σ v) = rd atol v)
+    (s₁ s₂ : SolverCfg K) (csc₁ csc₂ : Bool) (Ls₁ Ls₂ : Nat) (kind₁ kind₂ : LUKind)
+    (hs₁ : CfgBuilt s₁ t n csc₁ Ls₁ kind₁) (hs₂ : CfgBuilt s₂ t' n csc₂ Ls₂ kind₂)
+    (nCells : Nat) (r₁ r₂ : BEState K)
+    (hI₁ : BEStoreInv s₁ nCells n r₁) (hI₂ : BEStoreInv s₂ nCells n r₂)
+    (hE : BERelabelEq σ nCells n r₁ r₂)
+    (hpiv₁ : BEPivotsOK o kc T s₁ nCells n r₁) (hpiv₂ : BEPivotsOK o kc T s₂ nCells n r₂) :
+    BERelabelEq σ nCells n (beStep o s₁ pb kc atol rtol T r₁) (beStep o s₂ pb kc atol' rtol T r₂) :=
+  beStep_relabel o pb kc atol atol' rtol T hset hat s₁ s₂ csc₁ csc₂ Ls₁ Ls₂ kind₁ kind₂ hs₁ hs₂ nCells
+    r₁ r₂ hI₁ hI₂ hE hpiv₁ hpiv₂
+
+/-- **C12 (reordering), the whole backward-Euler solve.**  Same setting as `C12_solve_relabel`
+    (`σ` a permutation of `0 … n−1`, the tables rebuilt from the relabelled name map, any two
+    configurations, tolerances and initial state relabelled, States of the right shapes, no pivot
+    vanishing along either run): `beSolve` returns the same status, final time, *all* statistics,
+    the same sequence of step sizes `H` of the Newton iterations, and the relabelled solution. -/
+theorem C12_be_solve_relabel (σ : Nat → Nat)
+    (hinj : ∀ i, i < n → ∀ j, j < n → σ i = σ j → i = j) (hrng : ∀ i, i < n → σ i < n)
+    (hmech : Mechanism procs m t n) (hb' : ProcessSet.build procs (relabel σ m) = .ok t')
+    (s₁ s₂ : SolverCfg K) (csc₁ csc₂ : Bool) (Ls₁ Ls₂ : Nat) (kind₁ kind₂ : LUKind)
+    (hs₁ : CfgBuilt s₁ t n csc₁ Ls₁ kind₁) (hs₂ : CfgBuilt s₂ t' n csc₂ Ls₂ kind₂)
+    (nCells : Nat) (hat : ∀ v, v < n → rd atol' (σ v) = rd atol v)
+    (Y Y' : Mat K) (hYs : MatShape nCells n Y) (hYs' : MatShape nCells n Y')
+    (hY : ∀ c, c < nCells → ∀ v, v < n → rd (Y'.getD c #[]) (σ v) = rd (Y.getD c #[]) v)
+    (sc₁ sc₂ : Scratch K) (fuel : Nat)
+    (hf₁ : MatShape nCells n sc₁.f0) (hj₁ : MatShape nCells s₁.la.A.nnz sc₁.jac)
+    (hl₁ : s₁.la.kind.inPlace = false → MatShape nCells s₁.la.Lp.nnz sc₁.lower)
+    (hu₁ : s₁.la.kind.inPlace = false → MatShape nCells s₁.la.Up.nnz sc₁.upper)
+    (hf₂ : MatShape nCells n sc₂.f0) (hj₂ : MatShape nCells s₂.la.A.nnz sc₂.jac)
+    (hl₂ : s₂.la.kind.inPlace = false → MatShape nCells s₂.la.Lp.nnz sc₂.lower)
+    (hu₂ : s₂.la.kind.inPlace = false → MatShape nCells s₂.la.Up.nnz sc₂.upper)
+    (hpiv₁ : ∀ j, j < fuel → BEPivotsOK o kc T s₁ nCells n
+      ((beStep o s₁ pb kc atol rtol T)^[j] (beInit (beInitialH o pb T) Y sc₁)))
+    (hpiv₂ : ∀ j, j < fuel → BEPivotsOK o kc T s₂ nCells n
+      ((beStep o s₂ pb kc atol' rtol T)^[j] (beInit (beInitialH o pb T) Y' sc₂))) :
+    (beSolve o s₂ pb kc atol' rtol T Y' sc₂ fuel).status
+        = (beSolve o s₁ pb kc atol rtol T Y sc₁ fuel).status ∧
+    (beSolve o s₂ pb kc atol' rtol T Y' sc₂ fuel).finalTime
+        = (beSolve o s₁ pb kc atol rtol T Y sc₁ fuel).finalTime ∧
+    (beSolve o s₂ pb kc atol' rtol T Y' sc₂ fuel).stats
+        = (beSolve o s₁ pb kc atol rtol T Y sc₁ fuel).stats ∧
+    (MatShape nCells n (beSolve o s₁ pb kc atol rtol T Y sc₁ fuel).Y ∧
+     MatShape nCells n (beSolve o s₂ pb kc atol' rtol T Y' sc₂ fuel).Y ∧
+     ∀ c, c < nCells → ∀ v, v < n →
+      rd ((beSolve o s₂ pb kc atol' rtol T Y' sc₂ fuel).Y.getD c #[]) (σ v)
+        = rd ((beSolve o s₁ pb kc atol rtol T Y sc₁ fuel).Y.getD c #[]) v) ∧
+    (beSolve o s₂ pb kc atol' rtol T Y' sc₂ fuel).trace.map (·.h)
+        = (beSolve o s₁ pb kc atol rtol T Y sc₁ fuel).trace.map (·.h) := by
+  have hσ := extendRelabel_isRelabel σ n hinj hrng
+  have hset : RelabelSetup (extendRelabel σ n) procs m t t' n :=
+    ⟨hσ, hmech, by rw [relabel_extend σ n m hmech.range]; exact hb'⟩
+  obtain ⟨h1, h2, h3, h4, h5⟩ :=
+    beSolve_relabel o pb kc atol atol' rtol T hset
+      (fun v hv => by rw [extendRelabel_lt σ hv]; exact hat v hv) s₁ s₂
+      csc₁ csc₂ Ls₁ Ls₂ kind₁ kind₂ hs₁ hs₂ nCells Y Y' sc₁ sc₂ fuel
+      (PermMat.mk' hYs hYs' (fun c hc v hv => by rw [extendRelabel_lt σ hv]; exact hY c hc v hv))
+      ⟨hf₁, hj₁, hl₁, hu₁⟩ ⟨hf₂, hj₂, hl₂, hu₂⟩ hpiv₁ hpiv₂
+  refine ⟨h1, h2, h3, ⟨h4.left, h4.right, fun c hc v hv => ?_⟩, h5⟩
+  have := h4.rd c v hc hv
+  rwa [extendRelabel_lt σ hv] at this
+
+end BE
+
 end Relabel
 
 /-! ## Example: C02's mechanism `s0 + s0 + s1 → 2 s2 ; s2 → s0`, relabelled by the transposition
@@ -292,6 +376,53 @@ example :
     (rosSolve ratOps Ex.consts cfgA Ex.params exKc exAtolA (1/10) 1 exY0 (solveScratch cfgA) 4).Y ≠ exY0 := by
   decide +kernel
 
+/-! ### backward Euler on the same instance: `max_number_of_steps = 3`, reductions `¼, 0.1`,
+    `rtol = 10⁻⁶`, `T = ½`: three Newton iterations with `H = ½` fail, `H` is reduced to `⅛`, three more
+    converge -/
+
+def exBE : BEParams ℚ := { small := 1 / 10 ^ 40, hstart := 0, maxSteps := 3, reductions := [1/4, 1/10] }
+
+theorem exBEPivotsA : ∀ j, j < 6 → BEPivotsOK ratOps exKc (1/2) cfgA 2 3
+    ((beStep ratOps cfgA exBE exKc exAtolA (1/1000000) (1/2))^[j]
+      (beInit (beInitialH ratOps exBE (1/2)) exY0 (solveScratch cfgA))) := by
+  unfold BEPivotsOK
+  decide +kernel
+
+theorem exBEPivotsSw : ∀ j, j < 6 → BEPivotsOK ratOps exKc (1/2) cfgSw 2 3
+    ((beStep ratOps cfgSw exBE exKc exAtolSw (1/1000000) (1/2))^[j]
+      (beInit (beInitialH ratOps exBE (1/2)) exY0Sw swScratch)) := by
+  unfold BEPivotsOK
+  decide +kernel
+
+/-- `C12_be_solve_relabel` applies -/
+example :=
+  C12_be_solve_relabel ratOps exKc exAtolA exAtolSw (1/1000000) (1/2) exBE swap02
+    (fun i _ j _ h => swap02_inj h) (fun i hi => (swap02_relabel.lt_iff i).mpr hi) exMech swBuild
+    cfgA cfgSw false true 0 2 .doolittle .mozartInPlace cfgA_built cfgSw_built 2
+    (by decide +kernel) exY0 exY0Sw ⟨rfl, by decide⟩ ⟨rfl, by decide⟩ (by decide +kernel)
+    (solveScratch cfgA) swScratch 6
+    dense0_shape ⟨by simp [solveScratch], by decide +kernel⟩
+    (fun _ => ⟨by simp [solveScratch], by decide +kernel⟩)
+    (fun _ => ⟨by simp [solveScratch], by decide +kernel⟩)
+    ⟨rfl, by decide⟩ ⟨by simp [swScratch], by decide +kernel⟩
+    (fun h => by cases h) (fun h => by cases h) exBEPivotsA exBEPivotsSw
+
+/-- the two backward-Euler runs, evaluated: one rejected and one accepted outer step, same `H`s,
+    relabelled solution -/
+example :
+    (beSolve ratOps cfgA exBE exKc exAtolA (1/1000000) (1/2) exY0 (solveScratch cfgA) 6).trace.map (·.h)
+      = [1/2, 1/2, 1/2, 1/8, 1/8, 1/8] ∧
+    (beSolve ratOps cfgSw exBE exKc exAtolSw (1/1000000) (1/2) exY0Sw swScratch 6).trace.map (·.h)
+      = [1/2, 1/2, 1/2, 1/8, 1/8, 1/8] ∧
+    (beSolve ratOps cfgA exBE exKc exAtolA (1/1000000) (1/2) exY0 (solveScratch cfgA) 6).stats.rejected = 1 ∧
+    (beSolve ratOps cfgA exBE exKc exAtolA (1/1000000) (1/2) exY0 (solveScratch cfgA) 6).stats.accepted = 1 ∧
+    (∀ c, c < 2 → ∀ v, v < 3 →
+      rd ((beSolve ratOps cfgSw exBE exKc exAtolSw (1/1000000) (1/2) exY0Sw swScratch 6).Y.getD c #[])
+          (swap02 v)
+        = rd ((beSolve ratOps cfgA exBE exKc exAtolA (1/1000000) (1/2) exY0 (solveScratch cfgA) 6).Y.getD
+          c #[]) v) := by
+  decide +kernel
+
 end C12Ex
 
 end Micm
@@ -303,3 +434,6 @@ end Micm
 #print axioms Micm.C12_attempt_relabel
 #print axioms Micm.C12_step_relabel
 #print axioms Micm.C12_solve_relabel
+#print axioms Micm.C12_be_converged_relabel
+#print axioms Micm.C12_be_step_relabel
+#print axioms Micm.C12_be_solve_relabel
